@@ -492,6 +492,7 @@ class FakeSocket:
         self.sid = len(w.socks)
         self.kind = "sock"
         self.connect_called = False
+        self.dead = False               # the connection was reset or failed hard (getpeername -> ENOTCONN)
         w.socks.append(self)
         self._fd = None
         self._fd = w.alloc_fd()
@@ -563,7 +564,34 @@ class FakeSocket:
         self.so_error = 0 if ok else _errno.ECONNREFUSED
 
     def getsockname(self):
+        if self.closed:
+            raise OSError(_errno.EBADF, "Bad file descriptor")
         return ("127.0.0.1", 40000 + self._fd)
+
+    _HARD = (_errno.ECONNRESET, _errno.ETIMEDOUT, _errno.EPIPE, _errno.ECONNREFUSED, _errno.EHOSTUNREACH)
+
+    def getpeername(self):
+        """As the OS answers: EBADF once closed, ENOTCONN for a socket that never got connected or whose connection has been
+        reset / has failed (a peer's orderly close leaves the socket in CLOSE_WAIT, where the call still succeeds)."""
+        if self.closed:
+            raise OSError(_errno.EBADF, "Bad file descriptor")
+        connected = (self.kind == "accepted") or (self.connect_called and self.conn_done and not self.so_error)
+        if not connected or self.dead or self.recv_err in self._HARD:
+            raise OSError(_errno.ENOTCONN, "Transport endpoint is not connected")
+        return self.peer_name if self.peer_name is not None else ("10.9.9.9", 50000 + self._fd)
+
+    def shutdown(self, how):
+        if self.closed:
+            raise OSError(_errno.EBADF, "Bad file descriptor")
+        if self.dead or not ((self.kind == "accepted") or (self.connect_called and self.conn_done and not self.so_error)):
+            raise OSError(_errno.ENOTCONN, "Transport endpoint is not connected")
+
+    def settimeout(self, t):
+        if self.closed:
+            raise OSError(_errno.EBADF, "Bad file descriptor")
+
+    def gettimeout(self):
+        return 0.0
 
     def recv(self, n):
         if self.closed:
@@ -571,6 +599,8 @@ class FakeSocket:
         if self.recv_err:
             e = self.recv_err
             self.recv_err = None
+            if e in self._HARD:
+                self.dead = True
             raise OSError(e, _ros.strerror(e))
         if self.rbuf:
             d = bytes(self.rbuf[:n])
@@ -595,6 +625,8 @@ class FakeSocket:
             n = len(data)
         elif p < 0:
             w.obs("send_err", self.sid, -p)
+            if -p in self._HARD:
+                self.dead = True
             raise OSError(-p, _ros.strerror(-p))
         else:
             n = min(p, len(data))
